@@ -198,7 +198,7 @@ func RunLoot(behs [][]Step, tr *Trace, env Env, sum *Summary) {
 						}
 						return nil
 					})
-					if pan, to := guarded(func() { must(w.Restart()) }, 20*time.Second); pan != "" || to {
+					if pan, to := guarded(func() { must(w.Restart()) }, 150*time.Second); pan != "" || to {
 						if strings.Contains(pan, "harness-error") {
 							panic(pan)
 						}
